@@ -247,11 +247,49 @@ pub fn gen_scenario(seed: u64, large: u8) -> Scenario {
         if big_stitch {
             fam = *rng.pick(&["lattice", "circles", "tiles"]);
         }
+        if large == 0 && matches!(op.name, "par_iter_multipolygon" | "par_iter_multipoint_mls") && rng.chance(1, 3) {
+            fam = "archipelago";
+        }
+        if large == 0 && matches!(op.name, "unary_union" | "unary_union_multi" | "union" | "xor") && rng.chance(1, 4) {
+            fam = "donuts";
+        }
         // the spatial-index driven algorithms named in the property: point clouds half of the time
         if large == 0 && matches!(op.name, "concave_hull" | "k_nearest_concave_hull" | "outliers") && rng.chance(1, 2) {
             fam = "cloud";
         }
+        // the line-oriented operations: a third of the time on rings of 1 000 - 8 000 vertices
+        let long_ring = large == 0 && matches!(op.name, "simplify" | "simplify_vw" | "densify_segmentize" | "traversals" | "transforms") && rng.chance(1, 3);
+        if long_ring {
+            fam = "circles";
+        }
+        // (constrained triangulation of several 1000-vertex members costs ~0.1 s)
+        if fam == "archipelago" && op.name.contains("triangulation") && op.name != "stitch_triangulation" {
+            fam = "blobs";
+        }
         let mut spec = inputs::gen_spec(&mut rng, fam, large);
+        if long_ring {
+            spec.size = *rng.pick(&[1030usize, 2100, 4200, 8300]);
+        }
+        // rings of several thousand vertices are for the linear-time operations only
+        if fam == "circles" && spec.size > 2100 && !matches!(op.name, "simplify" | "simplify_vw" | "densify_segmentize" | "traversals" | "transforms" | "aggregates" | "geodesic_aggregates" | "convex_hull" | "quick_and_graham_hull" | "extremes" | "minimum_rotated_rect" | "earcut_triangles") {
+            spec.size = 2100;
+        }
+        // cost caps: triangulating hundreds of many-vertex members, clipping across thousands of slivers
+        if op.name.contains("triangulation") && op.name != "stitch_triangulation" {
+            let cap = match fam {
+                "donuts" | "archipelago" => 40,
+                "lattice" | "tiles" => 12,
+                "circles" => 520,
+                "blobs" => 70,
+                "starholes" | "combs" => 130,
+                _ => usize::MAX,
+            };
+            spec.size = spec.size.min(cap);
+        }
+        if fam == "mantissa" && matches!(op.name, "clip" | "clip_invert") {
+            spec.size = spec.size.min(20);
+        }
+        // uneven members / many holes: the parallel-iterator surface and the unions half of the time
         if big_stitch {
             spec.size = match fam {
                 "lattice" => 12 + rng.below(8),   // 144..361 squares, 576..1444 boundary edges
